@@ -23,3 +23,10 @@ package storage
 //@   ensures err == nil && ret0 != nil && val(ret0) == logBal(m.logs, address, asset)
 //@   loop 1 invariant 0 - 1 <= rangeindex && rangeindex < len(m.logs)
 //@   loop 1 invariant balance != nil && val(balance) == logBal(m.logs[:rangeindex+1], address, asset)
+
+// appending to the log is all InsertLogs does to it
+//@ func (*storage.InMemoryStore).InsertLogs
+//@   property C04
+//@   requires m != nil
+//@   ensures m.logs == concat(old(m.logs), logs)
+//@   loop 1 invariant m.logs == concat(old(m.logs), logs)
